@@ -458,4 +458,7 @@ def replay_disconnect():
 
 
 def units(tier):
-    return [EncStep(), SimpleSteps(), DisconnectStep()]
+    from . import c01
+    fr = c01.ReadFrame()
+    fr.prop, fr.name = 'C10', 'C10.frames-after-set-compression'
+    return [EncStep(), SimpleSteps(), DisconnectStep(), fr]
